@@ -35,3 +35,41 @@ chk('C01', 'exploration',
     'Trusts the fake S3 to mirror S3 where the library depends on it; minimum part size is scaled down except in the '
     'real-constant family; schedules sampled by delays and request-boundary gates.',
     'end-to-end content oracle over fake-S3 object table and multipart log', '4 C01', 'world,director,runner')
+
+chk('C02', 'fault_enumeration',
+    'Per range every sequence of fewer than num_download_attempts retryable stream faults (5 kinds) at boundary byte positions, '
+    'with short reads whose chunk boundaries differ between attempts and gated part orders, across transfer manager (4 '
+    'destination kinds), legacy download_file and the process-pool worker loop; destination bytes compared with the object.',
+    'Fault positions/kinds are enumerated on small objects; schedules are sampled. Fake response bodies raise the urllib3/socket '
+    'exceptions botocore translates.', 'end-to-end content oracle under enumerated stream faults', '4 C02', 'world,director,runner')
+chk('C03', 'fault_enumeration',
+    'A dry run lists every boundary event of each transfer type/mode; one run per (event, before/mid/after effect, fault kind), '
+    'retry-budget exhaustion per range, and (thorough) fault pairs; result() is compared with the log of faults actually raised.',
+    'Fault kinds are Exception subclasses; abort/cleanup/on_done faults excluded as the statement does.',
+    'outcome oracle over the raised-fault log', '4 C03', 'world,director,runner')
+chk('C04', 'exploration',
+    'Every run must return from result()/cancel()/shutdown() before a /proc-based quiescence detector finds all threads asleep '
+    'with obligations outstanding (logical deadlock verdict with stack witness). Families: small-limit lattice, 2-4 contending '
+    'transfers with gates, cancel-before-start, named race windows, re-entrant subscribers, line-level yield-injection stress.',
+    'No scheduler owns CPython thread switching: interleavings are randomized and steered, not enumerated to a preemption bound; '
+    'unbounded liveness restated as never-quiescent-while-unfinished.',
+    'quiescence-based deadlock detection on real threads', '4 C04', 'world,director,watchdog,yieldinj,runner')
+chk('C05', 'fault_enumeration',
+    'Per multipart upload id delivered to the library the fake S3 begin/end log is checked after one run per fault position and '
+    'per cancel point (uploads x 3 source kinds, copies, legacy uploader): completed once xor aborted before done; no request '
+    'after abort; abort only after all other requests returned.',
+    'Crash points are in-process faults; killed processes are out of scope.', 'per-upload protocol oracle over fake-S3 call log',
+    '4 C05', 'world,director,runner')
+chk('C06', 'fault_enumeration',
+    'Destination directory and the bytes under the destination name are inspected at every boundary event of every thread and at '
+    'the end, for one run per fault in open/write/close/rename/request/body and per cancel point, through manager, legacy and '
+    'process-pool (in-process) front-ends.',
+    'All file-system effects pass through hooked OSUtils/file wrappers; below-syscall tearing not observable.',
+    'directory-state monitor at every boundary event', '4 C06', 'world,director,runner')
+chk('C07', 'fault_enumeration',
+    'Cancel at every boundary event (before/after its effect) x entry points (future.cancel from event/user thread, '
+    'shutdown(cancel=True,msg), with-block exception, with-block KeyboardInterrupt), plus behaviourally established '
+    'cancel-before-start, cancel-after-done and race windows of the final task; result() type+message, no requests for '
+    'not-started transfers, cleanup oracles.',
+    'A cancel racing the final step may yield success iff the effect is complete.', 'cancel-point enumeration with outcome and cleanup oracles',
+    '4 C07', 'world,director,watchdog,yieldinj,runner')
